@@ -446,17 +446,45 @@ func (c *Ctx) c01NoErase() {
 			if len(args) == 0 {
 				continue
 			}
-			parts, _ := constStringParts(args[0])
+			parts, complete := constStringParts(args[0])
+			texts := []string{strings.Join(parts, " ")}
+			if !complete && f.Parent() == nil && len(f.Params) > 0 {
+				// the text names a table / view through a parameter: read it once per call site with the constant
+				// argument filled in
+				var bound []string
+				okAll := true
+				for _, site := range c.callersOf(f) {
+					bind := map[*ssa.Parameter]ssa.Value{}
+					for i, prm := range f.Params {
+						if i < len(site.Common().Args) {
+							if k, isConst := site.Common().Args[i].(*ssa.Const); isConst {
+								bind[prm] = k
+							}
+						}
+					}
+					pb, cb := constStringPartsBound(args[0], bind)
+					if !cb || len(pb) == 0 {
+						okAll = false
+						break
+					}
+					bound = append(bound, strings.Join(pb, " "))
+				}
+				if okAll && len(bound) > 0 {
+					texts, parts = bound, bound
+				}
+			}
 			if len(parts) == 0 {
 				R.Undecided("R8", c.P.FuncKey(f), "non-constant SQL", c.P.InstrPos(ci), "SQL text must be constant to be classified", "statement text is computed at run time")
 				continue
 			}
-			st, err := ParseSQL(strings.Join(parts, " "))
-			if err != nil {
-				R.Undecided("R8", c.P.FuncKey(f), "unparsed SQL", c.P.InstrPos(ci), "SQL statement must be classifiable", err.Error())
-				continue
+			for _, text := range texts {
+				st, err := ParseSQL(text)
+				if err != nil {
+					R.Undecided("R8", c.P.FuncKey(f), "unparsed SQL", c.P.InstrPos(ci), "SQL statement must be classifiable", err.Error())
+					continue
+				}
+				all = append(all, found{st, c.P.InstrPos(ci), c.P.FuncKey(f)})
 			}
-			all = append(all, found{st, c.P.InstrPos(ci), c.P.FuncKey(f)})
 		}
 	}
 	bad := 0
